@@ -63,6 +63,7 @@ type WorkerResult struct {
 	Samples       []any          `json:"samples"`
 	WallMs        int64          `json:"wall_ms"`
 	ViolationRuns int            `json:"violation_runs"`
+	Hung          bool           `json:"hung,omitempty"`
 }
 
 // RunWorker runs one simulation process.
@@ -96,7 +97,7 @@ func RunWorker(h Hooks, cfg WorkerConfig) *WorkerResult {
 		if cfg.Scripts == 0 && time.Now().After(deadline) {
 			break
 		}
-		if len(res.Violations) >= 3 {
+		if len(res.Violations) >= 3 || res.Hung {
 			break
 		}
 		r := prng.Sub(cfg.Seed, "script", uint64(si))
@@ -120,7 +121,13 @@ func RunWorker(h Hooks, cfg WorkerConfig) *WorkerResult {
 			res.Probes["script-with-line-over-64KiB"]++
 		}
 		one := func(c Case, sweep bool) {
+			if res.Hung {
+				return // a previous execution never returned: its goroutine is still spinning
+			}
 			o := Execute(h, c, log)
+			if o.Hang {
+				res.Hung = true
+			}
 			v := Judge(c, mc, o)
 			res.Runs++
 			res.Steps += o.Reads + o.Writes
